@@ -718,4 +718,103 @@ theorem filterDuplicates_unique (ps : List Path) :
   subst this
   omega
 
+/-! fingerprint abstraction -/
+
+section Fingerprint
+variable {F : Type} [DecidableEq F]
+variable (fp : List Iface → F) (K : List Iface → Prop)
+
+theorem ulookupF_map (hinj : ∀ a b, K a → K b → fp a = fp b → a = b) {m : UMap} {k : List Iface}
+    (hm : ∀ kv ∈ m, K kv.1) (hk : K k) :
+    ulookupF (m.map fun kv => (fp kv.1, kv.2)) (fp k) = ulookup m k := by
+  induction m with
+  | nil => rfl
+  | cons a m ih =>
+    obtain ⟨k', v⟩ := a
+    have hk' : K k' := hm (k', v) List.mem_cons_self
+    simp only [List.map_cons, ulookupF, ulookup]
+    by_cases h : k' = k
+    · simp [h]
+    · have : fp k' ≠ fp k := fun he => h (hinj _ _ hk' hk he)
+      simp only [h, this, if_false]
+      exact ih (fun kv hkv => hm kv (List.mem_cons_of_mem _ hkv))
+
+theorem usetF_map (hinj : ∀ a b, K a → K b → fp a = fp b → a = b) {m : UMap} {k : List Iface}
+    (hm : ∀ kv ∈ m, K kv.1) (hk : K k) (v : Nat × Nat) :
+    usetF (m.map fun kv => (fp kv.1, kv.2)) (fp k) v = (uset m k v).map fun kv => (fp kv.1, kv.2) := by
+  induction m with
+  | nil => rfl
+  | cons a m ih =>
+    obtain ⟨k', w⟩ := a
+    have hk' : K k' := hm (k', w) List.mem_cons_self
+    simp only [List.map_cons, usetF, uset]
+    by_cases h : k' = k
+    · simp [h]
+    · have : fp k' ≠ fp k := fun he => h (hinj _ _ hk' hk he)
+      simp only [h, this, if_false, List.map_cons]
+      rw [ih (fun kv hkv => hm kv (List.mem_cons_of_mem _ hkv))]
+
+theorem uset_keys {m : UMap} {k : List Iface} {v : Nat × Nat} (hm : ∀ kv ∈ m, K kv.1) (hk : K k) :
+    ∀ kv ∈ uset m k v, K kv.1 := by
+  induction m with
+  | nil => intro kv h; simp [uset] at h; subst h; exact hk
+  | cons a m ih =>
+    obtain ⟨k', w⟩ := a
+    intro kv h
+    unfold uset at h
+    split at h
+    · rcases List.mem_cons.1 h with rfl | h
+      · exact hm (k', w) List.mem_cons_self
+      · exact hm kv (List.mem_cons_of_mem _ h)
+    · rcases List.mem_cons.1 h with rfl | h
+      · exact hm (k', w) List.mem_cons_self
+      · exact ih (fun kv hkv => hm kv (List.mem_cons_of_mem _ hkv)) kv h
+
+theorem dedupStepF_map (hinj : ∀ a b, K a → K b → fp a = fp b → a = b) {m : UMap}
+    (hm : ∀ kv ∈ m, K kv.1) (ip : Nat × Path) (hk : K ip.2.intfs) :
+    dedupStepF fp (m.map fun kv => (fp kv.1, kv.2)) ip = (dedupStep m ip).map (fun kv => (fp kv.1, kv.2))
+    ∧ ∀ kv ∈ dedupStep m ip, K kv.1 := by
+  unfold dedupStepF dedupStep
+  rw [ulookupF_map fp K hinj hm hk]
+  cases ulookup m ip.2.intfs with
+  | none => exact ⟨usetF_map fp K hinj hm hk _, uset_keys K hm hk⟩
+  | some v =>
+    obtain ⟨i0, e0⟩ := v
+    dsimp only
+    split
+    · exact ⟨usetF_map fp K hinj hm hk _, uset_keys K hm hk⟩
+    · exact ⟨rfl, hm⟩
+
+theorem foldl_dedupStepF_map (hinj : ∀ a b, K a → K b → fp a = fp b → a = b) (l : List (Nat × Path))
+    (hl : ∀ ip ∈ l, K ip.2.intfs) (m : UMap) (hm : ∀ kv ∈ m, K kv.1) :
+    l.foldl (dedupStepF fp) (m.map fun kv => (fp kv.1, kv.2)) =
+      (l.foldl dedupStep m).map fun kv => (fp kv.1, kv.2) := by
+  induction l generalizing m with
+  | nil => rfl
+  | cons ip l ih =>
+    obtain ⟨h1, h2⟩ := dedupStepF_map fp K hinj hm ip (hl ip List.mem_cons_self)
+    simp only [List.foldl_cons, h1]
+    exact ih (fun x hx => hl x (List.mem_cons_of_mem _ hx)) _ h2
+
+/-- soundness of modelling the fingerprint by the interface list itself: if the fingerprint function
+is injective on the interface lists of the paths at hand (no SHA-256 collision among them), the
+code's `filterDuplicates` keyed by fingerprints returns exactly what the model's returns -/
+theorem filterDuplicatesF_eq (ps : List Path)
+    (hinj : ∀ p ∈ ps, ∀ q ∈ ps, fp p.intfs = fp q.intfs → p.intfs = q.intfs) :
+    filterDuplicatesF fp ps = filterDuplicates ps := by
+  unfold filterDuplicatesF filterDuplicates
+  dsimp only
+  have hK : ∀ a b, (∃ p ∈ ps, p.intfs = a) → (∃ p ∈ ps, p.intfs = b) → fp a = fp b → a = b := by
+    rintro a b ⟨p, hp, rfl⟩ ⟨q, hq, rfl⟩ h; exact hinj p hp q hq h
+  have hl : ∀ ip ∈ indexedFrom 0 ps, ∃ p ∈ ps, p.intfs = ip.2.intfs :=
+    fun ip hip => ⟨ip.2, (by obtain ⟨k, y⟩ := ip; rw [mem_indexedFrom] at hip; exact List.mem_of_getElem? hip.2), rfl⟩
+  have := foldl_dedupStepF_map fp (fun a => ∃ p ∈ ps, p.intfs = a) hK (indexedFrom 0 ps) hl []
+    (by simp)
+  simp only [List.map_nil] at this
+  rw [this]
+  simp only [List.any_map]
+  rfl
+
+end Fingerprint
+
 end Scion.Combinator
